@@ -2,7 +2,7 @@
 use checks::oracle::strip as check;
 use proptest::prelude::*;
 use serde_json::Value;
-use vcore::drive::{case_bytes, enum_par, stream_par, Verdict};
+use vcore::drive::{case_bytes, enum_par, huge_par, stream_par, Verdict};
 use vcore::gen::{self, StreamCfg};
 use vcore::rt::{self, digest, Acc, Args, Report};
 use vcore::vt;
@@ -103,6 +103,14 @@ fn run(args: &Args, rep: &mut Report) {
             |_| Value::Null,
         ),
     );
+    for (name, cfg) in [("grammar-huge", StreamCfg::ALL), ("grammar-huge-utf8", StreamCfg::UTF8)] {
+        rep.add(
+            name,
+            false,
+            "G-STREAM (0..8 items) with one printable run of 64..200 KiB (16-bit length boundaries)",
+            huge_par(name, args.seed, tier.pick(150, 10_000), cfg, || Just(()), |b, _, _| vd(b), |_| Value::Null),
+        );
+    }
     if args.tier == vcore::rt::Tier::Thorough {
         checks::fuzzrun::campaign(rep, args, "strip", 400000, checks::oracle::fuzz_strip);
     }
